@@ -5,12 +5,13 @@ Bridge (E7/C11): the clock advances (every entry settles again), the event store
 namespace Sessions
 
 theorem bookDone1_found (now : Nat) (tbl : List MSess) {pend : List (Tag × Name)} {c : Tag × Nat} {t : Tag} {nm : Name}
-    (hf : pend.find? (·.1 == c.1) = some (t, nm)) (hnp : ∀ k, c.1 ≠ .p k) :
+    (hf : pend.find? (·.1 == c.1) = some (t, nm)) (hnp : (∀ k, c.1 ≠ .p k) ∧ (∀ k, c.1 ≠ .u k)) :
     (bookDone1 now (tbl, pend) c).1 = monUpd tbl nm mDead := by
   unfold bookDone1
   rw [hf]
   cases hc : c.1 with
-  | p k => exact absurd hc (hnp k)
+  | p k => exact absurd hc (hnp.1 k)
+  | u k => exact absurd hc (hnp.2 k)
   | q k => rfl
   | d k => rfl
   | c k => rfl
@@ -21,7 +22,7 @@ theorem bookDone1_found (now : Nat) (tbl : List MSess) {pend : List (Tag × Name
 theorem bookDone_rel {cfg : Cfg} {tblS : List Sess} (hnS : NodupIds tblS) (now : Nat) (P : List Pend) :
     ∀ (done : List (Tag × Nat)) (tbl : List MSess) (pend : List (Tag × Name)),
       (∀ e ∈ tblS, RelPreAt cfg P tbl e) →
-      (∀ c ∈ done, ∀ x ∈ pend, x.1 = c.1 → (∀ k, c.1 ≠ .p k) ∧ ∃ e ∈ tblS, x.2 = sname e.id ∧ e.removed = true) →
+      (∀ c ∈ done, ∀ x ∈ pend, x.1 = c.1 → ((∀ k, c.1 ≠ .p k) ∧ (∀ k, c.1 ≠ .u k)) ∧ ∃ e ∈ tblS, x.2 = sname e.id ∧ e.removed = true) →
       (∀ e ∈ tblS, RelPreAt cfg P (bookDone now tbl pend done).1 e) ∧
       ((bookDone now tbl pend done).1.map (·.name) = tbl.map (·.name)) := by
   intro done
@@ -150,16 +151,17 @@ theorem sim_tick {cfg : Cfg} {d d' : RState} {m : Mon} {o : Obs} (hs : Sim cfg d
       cases hkind : q'.kind with
       | slow a b => rw [hkind] at hkeep; cases hkeep
       | run a b => rw [hkind] at hkeep; cases hkeep
+      | upl a b c => rw [hkind] at hkeep; cases hkeep
       | del i f =>
         rw [hkind] at hkeep hsh hj
         obtain ⟨⟨nn, hn, _⟩, _⟩ := hsh
         simp at hj; subst hj
-        exact ⟨(by intro k hk'; rw [hqt.1, hn] at hk'; cases hk'), key hkeep⟩
+        exact ⟨⟨(by intro k hk'; rw [hqt.1, hn] at hk'; cases hk'), (by intro k hk'; rw [hqt.1, hn] at hk'; cases hk')⟩, key hkeep⟩
       | cls i =>
         rw [hkind] at hkeep hsh hj
         obtain ⟨⟨nn, hn, _⟩, _⟩ := hsh
         simp at hj; subst hj
-        exact ⟨(by intro k hk'; rw [hqt.1, hn] at hk'; cases hk'), key hkeep⟩)
+        exact ⟨⟨(by intro k hk'; rw [hqt.1, hn] at hk'; cases hk'), (by intro k hk'; rw [hqt.1, hn] at hk'; cases hk')⟩, key hkeep⟩)
   have hpend2 := pend_after_completions (s := { d.st with now := d.st.now + n, tbl := d.st.tbl.map (settleE (d.st.now + n) d.st.closeFails) })
     hs.pok.tags (m.now + n) (m.tbl.map (expire cfg (m.now + n)))
   -- the bookkeeping as `monStep` computes it
@@ -201,7 +203,7 @@ theorem sim_tick {cfg : Cfg} {d d' : RState} {m : Mon} {o : Obs} (hs : Sim cfg d
   constructor
   · apply monStep_viol_none
     · rfl
-    · exact chkLog_nil _ _ _
+    · exact chkLogOp_nil _ _ _ _
     · rfl
     · show (scanMap cfg _ none .ok none _ (showMap _)).2 = none
       rw [hbd, hnow, htc.1]
@@ -210,10 +212,12 @@ theorem sim_tick {cfg : Cfg} {d d' : RState} {m : Mon} {o : Obs} (hs : Sim cfg d
       rw [hbd, hnow, htc.1]; exact htc.2.2.1
     · exact htc.2.2.2.1
     · rfl
+    · exact chkClose_model hinv' (fun e he => ⟨_, _, heok' e he⟩)
   · obtain ⟨e1, e2, e3, e4, e5, e6, e7⟩ := monStep_mon cfg m (.tick n)
       { status := .ok, hdr := none, hang := false, done := [] ++ d.pend.filterMap (doneOf { d.st with now := d.st.now + n, tbl := d.st.tbl.map (settleE (d.st.now + n) d.st.closeFails) }),
         map := showMap { d.st with now := d.st.now + n, tbl := d.st.tbl.map (settleE (d.st.now + n) d.st.closeFails) },
-        srv := showSrv { d.st with now := d.st.now + n, tbl := d.st.tbl.map (settleE (d.st.now + n) d.st.closeFails) }, log := [] }
+        srv := showSrv { d.st with now := d.st.now + n, tbl := d.st.tbl.map (settleE (d.st.now + n) d.st.closeFails) }, log := [],
+        stale := showStale { d.st with now := d.st.now + n, tbl := d.st.tbl.map (settleE (d.st.now + n) d.st.closeFails) } }
     apply sim_finish (tbl2 := tbl2)
       (d' := { st := { d.st with now := d.st.now + n, tbl := d.st.tbl.map (settleE (d.st.now + n) d.st.closeFails) }, nslow := d.nslow, nasync := d.nasync, released := d.released,
                pend := d.pend.filter (keepOf { d.st with now := d.st.now + n, tbl := d.st.tbl.map (settleE (d.st.now + n) d.st.closeFails) }) })
@@ -276,7 +280,7 @@ theorem sim_fault {cfg : Cfg} {d d' : RState} {m : Mon} {o : Obs} (hs : Sim cfg 
     · exact hs.minted
     · exact hs.idTarget
     · rw [hreq]; rfl
-    · exact chkLog_nil _ _ _
+    · exact chkLogOp_nil _ _ _ _
     · simp [chkNoId, hreq]
     · rfl
     · intro h hh; cases hh
